@@ -94,7 +94,15 @@ def row(rep, prog, name, q, exc, pred, desc, anchors=None, n_expected=1):
                 rep.fail("C18.guard", inst, site, f"{desc}: the checking loop can be left early (break), so not every element is checked")
                 return None
             g = c.cfg.node(lps[0])
-        late = [a for a in an if not c.cfg.dominates(g, c.cfg.node(a))]
+        def under_negation(a):
+            """the computation sits in the branch where the rejected condition is FALSE (`if well_formed: compute ... ; raise`): the negations of
+            its own path literals satisfy the rejection predicate"""
+            neg = tuple(l[1] if l[0] == "not" else ("not", l) for l in c.pcs.of(a))
+            try:
+                return bool(neg) and bool(pred(neg))
+            except Exception:
+                return False
+        late = [a for a in an if not c.cfg.dominates(g, c.cfg.node(a)) and not under_negation(a)]
         if late:
             rep.fail("C18.guard", inst, site, f"{desc}: the guard does not dominate the computation at line(s) {[a.lineno for a in late]} - a malformed input is computed before / instead of being rejected")
             return None
